@@ -234,9 +234,24 @@ def _is_action(node, family):
             return True
     if n.get("k") == "Call" and n.get("callee") in family:
         return True
+    if _is_for_loop(n):
+        # `for x in xs { self.resolve(x) }` is the loop spelling of `xs.for_each(|x| self.resolve(x))`
+        if any(x.get("k") in ("MethodCall", "Call") and (x.get("callee") in family or x.get("method") in ("extend", "push", "extend_from_slice")) for x in walk(n)):
+            return True
     if n.get("k") == "Let" and n.get("else") is not None:
         return False
     return False
+
+
+def _is_for_loop(n):
+    """the HIR desugaring of `for pat in iter { .. }`: match IntoIterator::into_iter(iter) { it => loop { match next(&mut it) { .. } } }"""
+    if n.get("k") != "Match" or len(n.get("arms", [])) != 1:
+        return False
+    sc = strip_transparent(n["scrut"])
+    body = n["arms"][0]["body"]
+    while body.get("k") == "Block" and not body.get("stmts") and body.get("expr") is not None:
+        body = body["expr"]
+    return sc.get("k") == "Call" and (sc.get("callee") or "").endswith("IntoIterator::into_iter") and body.get("k") == "Loop"
 
 
 R163_REVIEWED = {"Partial", "Required", "Pick", "Omit"}
